@@ -104,6 +104,9 @@ class RTDCWriter:
                                     mode=("w" if mode == "reset" else "a"))
         #: unfortunate necessity, as `len(h5py.Group)` can be really slow
         self._group_sizes = {}
+        #: number of valid (non-nan) values in the scalar datasets written
+        #: by this instance (weights for the incremental "mean" attribute)
+        self._valid_counts = {}
 
     def __enter__(self):
         return self
@@ -843,15 +846,27 @@ class RTDCWriter:
                 else:
                     val = ufunc(dset)
                 dset.attrs[uname] = val
-            # store ufunc data for mean (weighted with size)
+            # store ufunc data for mean (weighted with the number of
+            # valid, i.e. non-nan, values)
             mean_a = dset.attrs.get("mean", None)
             if mean_a is not None:
-                num_a = offset
-                mean_b = np.nanmean(data)
-                num_b = data.size
-                mean = (mean_a * num_a + mean_b * num_b) / (num_a + num_b)
+                num_a = self._valid_counts.get(dset.name)
+                if num_a is None:
+                    # dataset not written by this instance: count once
+                    num_a = int(np.sum(~np.isnan(dset[:offset])))
+                num_b = int(np.sum(~np.isnan(data)))
+                if num_b == 0:
+                    mean = mean_a
+                elif num_a == 0:
+                    mean = np.nanmean(data)
+                else:
+                    mean_b = np.nanmean(data)
+                    mean = (mean_a * num_a + mean_b * num_b) / (num_a + num_b)
             else:
                 mean = np.nanmean(dset)
+                num_a = 0
+                num_b = int(np.sum(~np.isnan(dset)))
+            self._valid_counts[dset.name] = num_a + num_b
             dset.attrs["mean"] = mean
         else:
             chunk_size = dset.chunks[0]
